@@ -312,6 +312,8 @@ inductive Clause where
   | c04CtxStuck (n : Nat)
   | c04CancelUnasked (id : Nat)
   | c05TcTwice | c05OdTwice | c05ClosedBusy | c05DoneBusy
+  | c05ClosedRunning (r : Nat)     -- transport closed while the handler of r was still running
+  | c05DoneRunning (r : Nat)       -- connection done (Close/Wait return) while the handler of r was still running
   | c05LateDispatch (r : Nat)
   | c05Stuck (impl : String)
   | c02Dropped (r : Nat)
@@ -499,6 +501,21 @@ def chkClosedIdle (p o : Obs) : Option Clause :=
   if o.tc == 1 && p.tc == 0 && !o.idle then some .c05ClosedBusy else none
 def chkDoneIdle (o : Obs) : Option Clause := if o.done && !o.idle then some .c05DoneBusy else none
 
+/-- The first request whose handler is running (parked in the scripted Handler) in `o`. -/
+def Obs.runningHandler (o : Obs) : Option Nat :=
+  o.parked.findSome? fun
+    | .h r => some r
+    | _ => none
+
+/-- C05: "lets handlers that are already running run to completion, and closes the transport only
+after they have returned" — judged on what the harness SEES (a handler goroutine parked inside the
+scripted Handler), not on the connection's own `incoming` counter (which `chkClosedIdle` /
+`chkDoneIdle` read: an implementation that under-counts looks idle to them). -/
+def chkClosedRunning (p o : Obs) : Option Clause :=
+  if o.tc == 1 && p.tc == 0 then o.runningHandler.map .c05ClosedRunning else none
+def chkDoneRunning (o : Obs) : Option Clause :=
+  if o.done then o.runningHandler.map .c05DoneRunning else none
+
 /-- C05: nothing is dispatched that arrived after shutdown began. -/
 def chkLateDispatch (m : Mon) (o : Obs) : Option Clause :=
   (m.reqs.zipIdx 0).findSome? fun (q, r) =>
@@ -512,6 +529,7 @@ def chkAll (m : Mon) (p o : Obs) (e : Ev) : Option Clause :=
   <|> chkOrder m p o
   <|> chkCancelAsked m <|> chkCancelX m p o <|> chkEv m p o e
   <|> chkTc o <|> chkOd o <|> chkClosedIdle p o <|> chkDoneIdle o <|> chkLateDispatch m o
+  <|> chkClosedRunning p o <|> chkDoneRunning o
 
 /-- Update the monitor with the event and the implementation's observation after it; return the
 first violated clause. -/
